@@ -195,13 +195,14 @@ func (o gop) String() string {
 }
 
 type gstate struct {
-	g        *graph.DependencyGraph
-	m        *digraph
-	diverged bool // the real graph no longer corresponds to the model (root cause already reported)
-	hung     bool // a query did not terminate: the process must not continue with this graph
-	pending  bool // deferred adds not yet completed by DetectCycles
-	pool     []gnode
-	rejected int
+	g          *graph.DependencyGraph
+	m          *digraph
+	checkPaths bool // also verify reported cycle paths (C05's subject)
+	diverged   bool // the real graph no longer corresponds to the model (root cause already reported)
+	hung       bool // a query did not terminate: the process must not continue with this graph
+	pending    bool // deferred adds not yet completed by DetectCycles
+	pool       []gnode
+	rejected   int
 }
 
 func newGState(pool []gnode) *gstate {
@@ -244,7 +245,7 @@ func (st *gstate) apply(o gop) []Finding {
 		}
 		if err != nil {
 			st.rejected++
-			if ce, ok := err.(*graph.CircularDependencyError); ok && wantReject {
+			if ce, ok := err.(*graph.CircularDependencyError); ok && wantReject && st.checkPaths {
 				out = append(out, checkCyclePath(st.pool, trial, ce, "graph")...)
 			}
 			if !st.pending {
@@ -288,7 +289,7 @@ func (st *gstate) apply(o gop) []Finding {
 		if (err != nil) != st.m.cyclic() {
 			out = append(out, Finding{feat("clause", "detect-verdict", "want-cycle", fmt.Sprint(st.m.cyclic())),
 				fmt.Sprintf("DetectCycles on %s returned %v", st.m, err)})
-		} else if ce, ok := err.(*graph.CircularDependencyError); ok {
+		} else if ce, ok := err.(*graph.CircularDependencyError); ok && st.checkPaths {
 			out = append(out, checkCyclePath(st.pool, st.m, ce, "graph")...)
 		}
 	}
@@ -764,7 +765,8 @@ func init() {
 			}
 			return []mc.Job{
 				{Name: "c19/pool2", Run: func(r *mc.Report) { c19Search(r, 2, 2, 200000, 0, 1) }},
-				{Name: "c19/pool3", Weight: 10, Run: func(r *mc.Report) { c19Search(r, 3, 2, 60000, 0, 1) }},
+				{Name: "c19/pool3", Weight: 10, Run: func(r *mc.Report) { c19Search(r, 3, 1, 60000, 0, 1) }},
+				{Name: "c19/pool3-2deps", Weight: 10, Run: func(r *mc.Report) { c19Search(r, 3, 2, 12000, 0, 1) }},
 			}
 		},
 	})
